@@ -82,6 +82,7 @@ type cannedDB struct {
 	items   []string // inserted in this order, level = levelOf(item, salt)
 	levels  []int
 	delta   bool
+	dup     bool     // delta mode: the callback deletes the item just written (it ends up in data AND delta)
 	content []string // filled by build: content of the stored snapshot
 }
 
@@ -120,6 +121,9 @@ func buildBackup(c *cannedDB, storeConc int) (e *nEnv, err error) {
 			}
 			fired = true
 			last := c.items[len(c.items)-1]
+			if c.dup {
+				last = c.content[0] // the item the visitor has just written
+			}
 			e.ws[0].Delete([]byte(last))
 			s2, _ := e.db.NewSnapshot()
 			s2.Close() // every snapshot up to the deletion epoch is closed: the GC worker unlinks the item
